@@ -498,6 +498,10 @@ func runC06(c *CaseCtx) (res CaseResult) {
 		// opposite nesting order: every call returns (see C11)
 		return runCrossNestedOnce(c, r)
 	}
+	if c.Idx%45 == 29 {
+		// histories over a dependency cycle of (run-once) multi-input converters
+		return runOnceCycleHistory(c, r)
+	}
 	if r.Intn(100) < 12 {
 		return runC06Malformed(c, r)
 	}
